@@ -11,6 +11,7 @@ package main
 //	push <type,...>                        Connection.watchedResourcesByOrder (hook)    -> known|tail
 //	hdr  <name@m,...> <name@m,...> <name@m,...> <mas>   route.TranslateRouteMatch      -> h=.. m=.. q=..
 //	pick <ns;kube;time;vis,...> <configNs>  pickBestVisibleNamespace (hook)             -> namespace
+//	wl   <id;time;uid,...>                  model.SortWorkloadsByCreationTime           -> ids in order
 //	slices <name;key@id,...> ...            endpointSliceCache Update*/Get (hook)       -> key@id,...
 //
 // "ties grouped": slices.SortFunc is not stable, so ids of elements that compare equal are printed as
@@ -45,6 +46,7 @@ import (
 	"istio.io/istio/pilot/pkg/serviceregistry/provider"
 	"istio.io/istio/pkg/jwt"
 	"istio.io/istio/pkg/util/sets"
+	"istio.io/istio/pkg/workloadapi"
 	"verifharness/internal/wire"
 )
 
@@ -377,6 +379,17 @@ func (c *cmpSUT) apply(f []string) (out string) {
 		return wire.EncList(known) + "|" + wire.EncList(tail)
 	case "eds":
 		return c.eds(f[1:])
+	case "wl":
+		var l []model.WorkloadInfo
+		for _, e := range elems(f[1]) {
+			p := fields(e)
+			l = append(l, model.WorkloadInfo{Workload: &workloadapi.Workload{Uid: p[2], Name: p[0]}, CreationTime: timeOf(atoi(p[1]))})
+		}
+		var ids []string
+		for _, w := range model.SortWorkloadsByCreationTime(l) {
+			ids = append(ids, w.Workload.Name)
+		}
+		return joinElems(ids)
 	case "pick":
 		by := map[string]*model.Service{}
 		for _, e := range elems(f[1]) {
@@ -573,7 +586,15 @@ func genNM(r *wire.Rng, pool []string, max int) []string {
 }
 
 func genCmpOp(r *wire.Rng) []string {
-	switch r.Intn(11) {
+	switch r.Intn(12) {
+	case 11:
+		nt := 1 + r.Intn(3)
+		var l []string
+		for i, n := 0, r.Intn(9); i < n; i++ {
+			uid := "Kubernetes//Pod/default/" + wire.Pick(r, []string{"a-0", "a-1", "a-10", "b-0", "A-0", ""})
+			l = append(l, encFields(strconv.Itoa(i), strconv.Itoa(r.Intn(nt)), uid))
+		}
+		return []string{"wl", joinElems(l)}
 	case 9:
 		seen := map[string]bool{}
 		var l []string
@@ -724,6 +745,13 @@ func oracleOp(c *cmpSUT, r *wire.Rng, f []string) string {
 		return f[0] + ":crash"
 	}
 	switch f[0] {
+	case "wl":
+		unique := distinctKeys(f[1], func(p []string) string { return p[1] + ";" + p[2] })
+		for k := 0; k < 6 && unique; k++ {
+			if got := c.apply([]string{"wl", permuteTok(r, f[1])}); got != base {
+				return "wl:perm"
+			}
+		}
 	case "svc", "cfg", "dr":
 		key := func(p []string) string { return p[1] + ";" + p[2] + ";" + p[3] }
 		if f[0] == "svc" {
